@@ -489,6 +489,7 @@ func RunTaggable(policyFile string, seed int64) (*Report, error) {
 		rep.mm(Mismatch{Props: []string{"C10"}, What: "all operations overridden to none: a payload that carries rotation material must be forwarded unchanged like any other, and the filter left as it was",
 			Vector: "rotation payload, all-none overrides", Expected: "same event, nil error, filter untouched", Observed: fmt.Sprintf("panic=%v err=%v same=%v wrapper kept=%v salt=%q", pan2, perr2, out2 == re, fn.Wrapper == w, fn.HmacSalt)})
 	}
+	RunZoo(rep, seed, 400)
 	curTags = nil
 	reportAliasing(rep)
 	return rep, nil
